@@ -4,7 +4,7 @@
    "Shares no mutable state" is a statement about Python objects: it is decided on the implementation by
    harness/props/c09.py (the model is value-semantic). *)
 From Coq Require Import QArith.
-From E3FP Require Import Base.Prelude Base.ZSet Model.Fprint Model.FprintIO Proofs.FprintEq Proofs.FprintConv.
+From E3FP Require Import Base.Prelude Base.ZSet Model.Fprint Model.FprintIO Model.Db Proofs.DbFold Proofs.FprintEq Proofs.FprintConv.
 Open Scope Z_scope.
 
 (* == is true exactly for the same type, length, level, set bits and counts (counts up to equality of rationals).
@@ -116,6 +116,15 @@ Theorem convert_back_not_representable :
   (exists a c r, wf_fp a /\ from_fingerprint KBit a = Ok c /\ from_fingerprint KCount c = Ok r /\ fp_eq a r = Ok false).
 Proof. exact (conj float_count_float_witness count_bit_count_witness). Qed.
 Print Assumptions convert_back_not_representable.
+
+(* FingerprintDatabase.__eq__ (Model/Db.v db_eq; lemma of the database development, Proofs/DbFold.v): equal exactly for the
+   same fingerprint type, level, length, number of rows, name index and an all-zero row difference *)
+Theorem db_eq_spec : forall a b,
+  db_eq a b = true <->
+  dkind a = dkind b /\ dlevel a = dlevel b /\ dbits a = dbits b /\ fp_num a = fp_num b /\ index_eqb (dindex a) (dindex b) = true
+  /\ (dbits a <> None -> rows_diff_zero (dkind a) (drows a) (drows b) = true).
+Proof. exact db_eq_spec. Qed.
+Print Assumptions db_eq_spec.
 
 (* non-vacuity: well-formed fingerprints of every kind exist (with several set positions, level None, a name), and
    the executable test used on every generated input implies the predicate of the theorems *)
